@@ -127,7 +127,8 @@ void h_eventfd_grab(void)
 	r = eventfd_grab();
 	__CPROVER_assert(eventfd_in_use <= old, "[C15] the detected eventfd flavour only ever degrades (idempotent one-way flag)");
 	__CPROVER_assert(IMPLIES(old == 2, g_efd2 == 1), "[C15] eventfd2 is tried first");
-	__CPROVER_assert(IMPLIES(old == 2 && verif_in.efd2_errno != 0 && verif_in.efd2_errno != EINVAL && verif_in.efd2_errno != ENOSYS, r == -verif_in.efd2_errno && g_efd == 0), "[C15] a real error (descriptor limit ...) is reported, not mistaken for a missing call");
+	__CPROVER_assert(IMPLIES(old == 2 && verif_in.efd2_errno != 0 && verif_in.efd2_errno != EINVAL && verif_in.efd2_errno != ENOSYS, r == -verif_in.efd2_errno && g_efd == 0), "[C15,C09] a real error (descriptor limit ...) is reported, not mistaken for a missing call");
+	__CPROVER_assert(IMPLIES(old == 2 && verif_in.efd2_errno != 0 && verif_in.efd2_errno != EINVAL && verif_in.efd2_errno != ENOSYS, eventfd_in_use == old), "[C09,C15] a real error leaves the detected flavour alone: objects registered earlier keep the write format of their descriptor, so their posts are not lost");
 	__CPROVER_assert(IMPLIES(old == 2 && (verif_in.efd2_errno == EINVAL || verif_in.efd2_errno == ENOSYS), g_efd == 1 && eventfd_in_use <= 1), "[C15] missing eventfd2 falls back to eventfd and is remembered");
 	__CPROVER_assert(IMPLIES(r == -ENOSYS, eventfd_in_use == 0), "[C15] -ENOSYS means: use a pipe from now on");
 	__CPROVER_assert(IMPLIES(old == 0, r == -ENOSYS && g_efd2 == 0 && g_efd == 0), "[C15] known-absent eventfd is not retried");
@@ -183,7 +184,7 @@ void h_raw_post(void)
 	v_build();
 	v_er.event_wfd = 7;
 	iv_event_raw_post(&v_er);
-	__CPROVER_assert(g_writes == verif_in.wr_eintr + 1, "[C09,C15] the wake-up write is retried when interrupted and otherwise issued once (a full pipe is harmless: something is already pending)");
+	__CPROVER_assert(g_writes == verif_in.wr_eintr + 1, "[C09,C15,C08] the wake-up write is retried when interrupted and otherwise issued once (a full pipe is harmless: something is already pending)");
 	__CPROVER_assert(g_wr_fd == 7 && g_wr_n == (eventfd_in_use ? 8 : 1) && g_wr_val_ok, "[C09] one byte on a pipe, the 8-byte value 1 on an eventfd");
 	__CPROVER_assert(g_reads == 0 && g_handler_calls == 0, "[C09] posting only writes (async-signal-safe), it never runs the handler itself");
 	CANARY();
